@@ -3,6 +3,7 @@ import AM.Model.Syslog
 import AM.Proto
 import AM.ProtoTracker
 import AM.Model.Pipe
+import AM.Model.DirReader
 /-! `amdriver <mode> [property]`: runs the executable model on cases read from stdin, one per line,
 prints the model's canonical observation, the verdict of the property's executable `Spec` on it
 and — when the case carries the implementation's observation (`obs=`) — the verdict on that. -/
@@ -156,6 +157,39 @@ def pipeLine (f : List String) : String :=
     | _, _ => s!"{id} !badcase"
   | _ => "!badline"
 
+/-- C20: `<id> <name=hex,…> <op;op;…|-> [obs=…]` -/
+def dirLine (f : List String) : String :=
+  match f with
+  | id :: files :: ops :: rest =>
+    let fs := (files.splitOn ",").mapM fun kv =>
+      match kv.splitOn "=" with
+      | [n, c] => (ofHex c).map fun b => (n.toList, b)
+      | _ => none
+    let os := if ops == "-" then some [] else (ops.splitOn ";").mapM fun o =>
+      if o == "rot" then some Dir.FsOp.rotate
+      else if o == "trunc" then some Dir.FsOp.truncate
+      else if o.startsWith "a:" then (ofHex (o.drop 2).toString).map Dir.FsOp.append
+      else none
+    match fs, os with
+    | some fs, some os =>
+      let o := Dir.run fs os
+      let exp := Dir.expected fs os
+      let sp := if o = exp then "ok" else "FAIL:model-differs-from-expected"
+      let isp := match kv rest "obs" with
+        | none => "-"
+        | some x =>
+          if x == Dir.render exp then "ok" else
+          let got := x.splitOn ";"
+          let want := (Dir.render exp).splitOn ";"
+          if x.contains '!' then "FAIL:reader-died-or-hung"
+          else if got.length < want.length then "FAIL:lines-lost"
+          else if got.length > want.length then "FAIL:lines-duplicated-or-partial"
+          else "FAIL:wrong-order-or-content"
+      let nt := if o.length ≥ 2 && !os.isEmpty then "1" else "0"
+      s!"{id} {Dir.render o} spec={sp} ispec={isp} dom=1 nt={nt}"
+    | _, _ => s!"{id} !badcase"
+  | _ => "!badline"
+
 partial def loop (h : IO.FS.Stream) (out : IO.FS.Stream) (f : List String → String) : IO Unit := do
   let line ← h.getLine
   if line.isEmpty then return ()
@@ -169,6 +203,7 @@ def main (args : List String) : IO UInt32 := do
   match args with
   | ["sshd", prop] => loop stdin stdout (sshdLine prop); return 0
   | ["c07"] => loop stdin stdout c07Line; return 0
+  | ["dir"] => loop stdin stdout dirLine; return 0
   | ["pipe"] => loop stdin stdout pipeLine; return 0
   | ["tracker", prop] => loop stdin stdout (trackerLine prop); return 0
   | _ => IO.eprintln "usage: amdriver <mode> [property]"; return 2
